@@ -223,6 +223,11 @@ func runScenario(sc tlive.Scenario, seed uint64) childLine {
 		if res.NotQuiet != "" || len(sf) == 0 || attempt >= 3 {
 			break
 		}
+		if tlive.HardEvidence(sc, res) {
+			// not a matter of timing: this run is the one Coq gets
+			counts["kept-run-with-hard-evidence"]++
+			break
+		}
 		counts["rerun-after-soft-failure"]++
 		fmt.Fprintf(os.Stderr, "c13: scenario re-run (%v)\n", sf)
 	}
